@@ -71,6 +71,11 @@ def option_cases(tier):
             for subset in itertools.combinations(names, r):
                 for ok in OPTION_KINDS[: (3 if tier != "quick" else 2)]:
                     out.append((st, tuple((n, ok) for n in subset)))
+    # plain (non-array) fields whose names look like unrolled array elements of another field
+    for blk in ("f0", "temp", "f0_1"):
+        for ok in OPTION_KINDS[:2]:
+            st = ("st", (("f0", 0, U(8)), ("f0_1", 1, I(16)), ("temp", 2, U(8)), ("temp_1", 3, U(8)), ("temp_12", 4, ("st", (("temp_3", 0, U(4)), ("f0_0", 1, U(4)))))))
+            out.append((st, ((blk, ok),)))
     return out
 
 
